@@ -527,8 +527,10 @@ C01ContainerRaw(s) ==
     ELSE {M("any_any", ps) : ps \in {q \in GoodPairs : Len(q) <= 2}}
          \cup {M("string_any", << <<Str("a"), x>> >>) : x \in {L("any", <<I64(1), Str("2")>>), L("any", <<>>), F("float32", 3), I64(IMax), FS("float64", "nan")}}
 InitC01 ==
-    \/ \E s \in C01Scalars : \E x \in ScalarRaw(s) \cup (IF s.kind = "any" THEN AnyRaw ELSE {}) : Accepting(s, x) /\ vec = VecChain(s, x)
+    \/ \E s \in C01Scalars \cup C02Scalars : \E x \in ScalarRaw(s) \cup (IF s.kind = "any" THEN AnyRaw ELSE {}) : Accepting(s, x) /\ vec = VecChain(s, x)
     \/ \E s \in C01Containers : \E x \in C01ContainerRaw(s) : Accepting(s, x) /\ vec = VecChain(s, x)
+    \/ Deep /\ \E s \in C02Lists : \E x \in RawLists : Accepting(s, x) /\ vec = VecChain(s, x)
+    \/ Deep /\ \E s \in C02Maps : \E x \in RawMaps : Accepting(s, x) /\ vec = VecChain(s, x)
     \/ \E s \in Objs1("map", {FALSE}, {FALSE}) \cup Objs2("map", {FALSE}, {FALSE}) \cup Objs1("ptrs", {FALSE}, {FALSE})
                \cup (IF Deep THEN Objs2("ptrs", {FALSE}, {FALSE}) ELSE {}) :
           \E x \in ObjRawArgs(s) \cup (IF Len(s.props) = 1 THEN ObjRawExtra(s) ELSE {}) : Accepting(s, x) /\ vec = VecChain(s, x)
